@@ -726,7 +726,7 @@ func verifNameChar(name string) byte {
 func HarnessEnumNames() {
 	// options: prefix "P_" and short names UNSPECIFIED, n1 (three symbolic
 	// characters of A-Z and _, so a short name may itself start with the
-	// prefix), n2 (one letter)
+	// prefix), n2 (one letter), declared in either order
 	n1b := []byte{verifNameChar("n"), verifNameChar("n"), verifNameChar("n")}
 	verifAssume(n1b[0] != '_')
 	verifAssume(n1b[2] != '_')
@@ -734,6 +734,9 @@ func HarnessEnumNames() {
 	verifAssume(n2b[0] != '_')
 	n1, n2 := string(n1b), string(n2b)
 	names := []string{"UNSPECIFIED", n1, n2}
+	if ndBool("oneLetterNameDeclaredFirst") {
+		names = []string{"UNSPECIFIED", n2, n1}
+	}
 	es := j5reflectEnum("P_", names)
 	ef, cell := j5reflect.VerifNewEnum(es)
 	text := string(verifBytes("t", verifParam("T", 4)))
